@@ -136,5 +136,31 @@ Theorem worker_attended : forall cfg t0 evs, fresh_calls [] evs ->
 Proof. exact worker_attended. Qed.
 Print Assumptions worker_attended.
 
+(* workerless_queue_armed: in every reachable state (all event lists, no hypothesis) a removable size class
+   queue without workers has its removal time-out armed.  (The converse -- a queue whose removal is armed has no
+   workers -- is part of PropertiesC01.parked_workers.) *)
+Theorem workerless_queue_armed : forall cfg t0 evs k,
+  let s := fst (run (init cfg t0) evs) in
+  scq_exists s k = true -> q_removable (get_scq s k) = true -> q_workers (get_scq s k) = [] -> q_cleanup (get_scq s k) <> None.
+Proof. exact workerless_queue_armed. Qed.
+Print Assumptions workerless_queue_armed.
+
+(* gc_complete: once every call has returned and no time-out is pending, nothing created on behalf of clients or
+   workers remains -- every registered operation is one the scheduler made for itself (background learning), there is
+   no worker, and no dynamically created size class queue -- unless a scheduler panic was observed on the way
+   (escape inherited from worker_attended). *)
+Theorem gc_complete : forall cfg t0 evs, fresh_calls [] evs ->
+  let s := fst (run (init cfg t0) evs) in
+  panicked (snd (run (init cfg t0) evs)) \/
+  ((forall c p, aget Nat.eqb c (s_calls s) = Some p -> p = PDone) ->
+   (forall o x, aget Nat.eqb o (s_ops s) = Some x -> o_cleanup x = None) ->
+   (forall w, worker_exists s w = true -> k_cleanup (get_worker s w) = None) ->
+   (forall k, scq_exists s k = true -> q_cleanup (get_scq s k) = None) ->
+   (forall o x, aget Nat.eqb o (s_ops s) = Some x -> o_mayexist x = true) /\
+   (forall w, worker_exists s w = false) /\
+   (forall k, scq_exists s k = true -> q_removable (get_scq s k) = false)).
+Proof. exact gc_complete. Qed.
+Print Assumptions gc_complete.
+
 (* NOT PROVED YET (see docs/areas/Sched-proofs.md):
-   the queue / empty-invocation parts of Spec.c06_dump; c06_final (gc_complete). *)
+   the empty-invocation part of Spec.c06_dump; the monitor-state versions (m_syncs, m_live) of these statements. *)
